@@ -14,21 +14,27 @@ General facts of the engine model (every program, every state; event managers ma
 * the value is stored — and only thereby becomes visible to consumers and to `run()` — strictly after the
   successful `on_node_complete` has returned, even if the callback suspends (`C14_value_stored_after_complete`).
 A `BaseException` outside `Exception` ends the node without `on_node_complete` (it is not the node's result).
+A collaborator that *raises* (`cbRaise`): the exception is handed to the surrounding code (`C14_callback_raises`); inside a
+node it ends the node's task after the `finally` notifications (`C14_node_callback_failure_ends_the_task`).
 -/
 namespace MLPE.Eng
 open MLPE
 
 theorem C14_pipeline_start_first (c : Ctx) (s : St) (obs : List Obs) :
     mgrStart c s obs =
-      cbThen c s (obs ++ [.pstart]) (fun j => [.mgrCbStart j]) (c.P.cbYield .pstart 0) (fun s obs => mgrBegin c s obs) :=
+      cbCall c .pstart 0 s (obs ++ [.pstart]) (fun j => [.mgrCbStart j]) (fun s obs => mgrBegin c s obs)
+        (fun e s obs => mgrReturn c s obs (.raised e)) :=
   rfl
 
 /-- `on_pipeline_complete(result)` is emitted with the outcome `o`, and what `chart.run` returns afterwards is `o` -/
 theorem C14_pipeline_complete_carries_result (c : Ctx) (s : St) (obs : List Obs) (o : Outcome)
     (h : ∀ e, o ≠ .raised e) :
     mgrComplete c s obs o =
-      cbThen c s (obs ++ [.pcomplete o]) (fun j => [.mgrCbComplete j o]) (c.P.cbYield .pcomplete 0)
-        (fun s obs => mgrReturn c s obs o) := by
+      cbCall c .pcomplete 0 s (obs ++ [.pcomplete o]) (fun j => [.mgrCbComplete j o])
+        (fun s obs => mgrReturn c s obs o)
+        (fun e s obs =>
+          let twice := match o with | .value _ => e.isException | _ => false
+          mgrReturn c s (if twice then obs ++ [.pcomplete (.error e)] else obs) (.raised e)) := by
   cases o <;> simp_all [mgrComplete]
 
 theorem C14_return_reports_same_outcome (c : Ctx) (s : St) (obs : List Obs) (o : Outcome) :
@@ -39,8 +45,10 @@ theorem C14_return_reports_same_outcome (c : Ctx) (s : St) (obs : List Obs) (o :
 theorem C14_node_start_first (c : Ctx) (s : St) (obs : List Obs) (d : DagRef) (n : Node) (force : Bool)
     (below : List Frame) (h : s.procExists n = false) :
     nodeStart c s obs d n force below =
-      cbThen c (s.markProcessed n) (obs ++ [.nstart n]) (fun j => .node d n force (.cbStart j (s.invCount n)) :: below)
-        (c.P.cbYield .nstart n) (fun s' obs => nodeBegin c s' obs d n force below (s.invCount n)) := by
+      cbCall c .nstart n (s.markProcessed n) (obs ++ [.nstart n])
+        (fun j => .node d n force (.cbStart j (s.invCount n)) :: below)
+        (fun s' obs => nodeBegin c s' obs d n force below (s.invCount n))
+        (fun e s' obs => nodeCbRaise c s' obs d n below e) := by
   simp [nodeStart, h]
 
 /-- an attempt whose exception is retried: exactly one `on_node_complete(error=e)`, then the sleep -/
@@ -48,15 +56,16 @@ theorem C14_attempt_retried (c : Ctx) (s : St) (obs : List Obs) (d : DagRef) (n 
     (below : List Frame) (k : Nat) (kw : Kwargs) (inv : Nat) (e : Exc)
     (hr : (c.P.cfg n).retryable e = true) (hk : (k == (c.P.cfg n).attemptsEff) = false) :
     nodeAfterBody c s obs d n force below k kw inv (.raise e) =
-      cbThen c s (obs ++ [.ncomplete n (some e)]) (fun j => .node d n force (.cbRetry j k kw inv) :: below)
-        (c.P.cbYield .ncomplete n) (fun s obs => nodeSleep c s obs d n force below k kw inv) := by
+      cbCall c .ncomplete n s (obs ++ [.ncomplete n (some e)]) (fun j => .node d n force (.cbRetry j k kw inv) :: below)
+        (fun s obs => nodeSleep c s obs d n force below k kw inv)
+        (fun e' s obs => nodeCbRaiseInTry c s obs d n below e') := by
   simp [nodeAfterBody, hr, hk]
 
 /-- a produced value: exactly one `on_node_complete(error=None)`, then — and only then — the value is stored -/
 theorem C14_attempt_succeeded (c : Ctx) (s : St) (obs : List Obs) (d : DagRef) (n : Node) (below : List Frame) (v : Val) :
     nodeSuccess c s obs d n below v =
-      cbThen c s (obs ++ [.ncomplete n none]) (fun j => .node d n false (.cbOk j v) :: below)
-        (c.P.cbYield .ncomplete n) (fun s obs => nodePost c s obs d n below v) := rfl
+      cbCall c .ncomplete n s (obs ++ [.ncomplete n none]) (fun j => .node d n false (.cbOk j v) :: below)
+        (fun s obs => nodePost c s obs d n below v) (fun e s obs => nodeCbRaiseInTry c s obs d n below e) := rfl
 
 /-- a default value is a value: `get_default`, then `on_node_complete(None)` -/
 theorem C14_default_reports_no_error (c : Ctx) (s : St) (obs : List Obs) (d : DagRef) (n : Node) (below : List Frame)
@@ -66,8 +75,8 @@ theorem C14_default_reports_no_error (c : Ctx) (s : St) (obs : List Obs) (d : Da
 /-- a final failure: exactly one `on_node_complete(error=e)` with the exception the node raised -/
 theorem C14_attempt_failed (c : Ctx) (s : St) (obs : List Obs) (d : DagRef) (n : Node) (below : List Frame) (e : Exc) :
     nodeFail c s obs d n below e =
-      cbThen c s (obs ++ [.ncomplete n (some e)]) (fun j => .node d n false (.cbFail j e) :: below)
-        (c.P.cbYield .ncomplete n) (fun s obs => nodeFailCont c s obs d n below e) := rfl
+      cbCall c .ncomplete n s (obs ++ [.ncomplete n (some e)]) (fun j => .node d n false (.cbFail j e) :: below)
+        (fun s obs => nodeFailCont c s obs d n below e) (fun e' s obs => nodeCbRaise c s obs d n below e') := rfl
 
 /-- while a callback is suspended nothing of the storage changes: in particular the node's value is not yet
 visible to consumers or to `run()` when `on_node_complete` has not returned -/
@@ -77,6 +86,23 @@ theorem C14_value_stored_after_complete (c : Ctx) (s : St) (obs : List Obs) (fra
     (cbThen c s obs frames (j + 1) k).2 = obs := by
   simp only [cbThen, yieldNow]
   split <;> simp [St.setTask]
+
+/-- a collaborator that returns (does not raise) is the suspension behaviour above -/
+theorem C14_callback_returns (c : Ctx) (cb : Cb) (n : Node) (s : St) (obs : List Obs) (frames : Nat → List Frame)
+    (kOk : St → List Obs → Out) (kErr : Exc → St → List Obs → Out) (h : c.P.cbRaise cb n = none) :
+    cbCall c cb n s obs frames kOk kErr = cbThen c s obs frames (c.P.cbYield cb n) kOk := by
+  simp [cbCall, h]
+
+/-- a collaborator that raises: the exception goes to the surrounding code at once; a node's task runs the `finally` of
+`_run_node` (everybody who may be waiting is notified) and ends with that exception, so `run()` reports it -/
+theorem C14_callback_raises (c : Ctx) (cb : Cb) (n : Node) (s : St) (obs : List Obs) (frames : Nat → List Frame)
+    (kOk : St → List Obs → Out) (kErr : Exc → St → List Obs → Out) (e : Exc) (h : c.P.cbRaise cb n = some e) :
+    cbCall c cb n s obs frames kOk kErr = kErr e s obs := by
+  simp [cbCall, h]
+
+theorem C14_node_callback_failure_ends_the_task (c : Ctx) (s : St) (obs : List Obs) (d : DagRef) (n : Node) (e : Exc) :
+    nodeCbRaise c s obs d n [] e = endTask c (nodeFinally c.P s d n true) obs (.exc e) := by
+  simp [nodeCbRaise, raiseOut, unwindFrames]
 
 /-- and when the callback does not suspend, the continuation runs on exactly the state the event was emitted in -/
 theorem C14_no_suspension_continues_at_once (c : Ctx) (s : St) (obs : List Obs) (frames : Nat → List Frame)
